@@ -17,8 +17,8 @@ def snap_nfa(N):
     return (frozenset(N.Q), frozenset(N.Sigma), rel, N.q0, frozenset(N.F), N.epsilon)
 
 
-def ref_of_dfa_spec(spec, scheme='s'):
-    return fa.from_dfa_parts(*spaces.dfa_parts(spec, scheme))
+def ref_of_dfa_spec(spec, scheme='s', letters='ab'):
+    return fa.from_dfa_parts(*spaces.dfa_parts(spec, scheme, letters))
 
 
 def ref_of_nfa_spec(spec, scheme='s', eps=''):
